@@ -717,6 +717,19 @@ def verd1(P, R, L, rule="VERD-1", what=("table", "memtable", "version", "dbget")
                     if wr or any(x in r for x in b.return_blocks()):
                         okall = False
                         det.append("KeyNotFound edge reaches a write of the return place / return before the next file")
+                # a miss moves on to the NEXT CANDIDATE OF THE SAME LEVEL (level 0 contributes several overlapping tables, newest
+                # first): the KeyNotFound edge reaches the step of the innermost loop around the lookup without passing the
+                # step of an enclosing loop first (`break` instead of `continue` skips the older level-0 tables)
+                next_sites = [c for c in b.calls() if "Iterator" in (c.name or "") and c.name.endswith("::next") and in_cycle(b, c.bb) and not b.is_cleanup(c.bb)]
+                inner = [n_ for n_ in next_sites if n_.target is not None and
+                         s.bb in b.reachable(n_.target, removed_nodes=[x.bb for x in next_sites if x is not n_])]
+                same_level = bool(knf) and bool(inner)
+                for (sb, tg) in knf:
+                    if not any(n_.bb in b.reachable(tg, removed_nodes=[x.bb for x in next_sites if x is not n_]) for n_ in inner):
+                        same_level = False
+                R.check(rule, VERSION_GET + "|a-miss-moves-on-to-the-next-candidate-of-the-level", same_level, s.where(),
+                        "from the KeyNotFound edge the step of the innermost candidate loop is reached before the step of the loop over the levels",
+                        "loop steps %d, innermost %s" % (len(next_sites), [n_.line for n_ in inner]))
                 # any other Err variant ends the search at once (a damaged newer table must not be skipped in favour of an
                 # older value further down)
                 other_ok = True
@@ -4323,12 +4336,13 @@ def bundle_retention(P, R, L):
 
 def bundle_liveness(P, R, L):
     """files a reader may still open are not deleted"""
-    R.clause("LIVE", "liveness bundle: GRD-5 (deletion guards incl. files of every linked version), PAIR-1 (version pins), OWN-12 (release unlinks that version), cache eviction before delete")
+    R.clause("LIVE", "liveness bundle: GRD-5 (deletion guards incl. files of every linked version), PAIR-1 (version pins), OWN-12 (release unlinks that version), ORD-13 (pending outputs stay registered until installed), cache eviction before delete")
     from . import c11
     R.once(c11.grd5, P, R, L)
     R.once(c11.pair1, P, R, L)
     R.once(cache_eviction, P, R, L)
     R.once(own12_release_unlinks_that_version, P, R, L)
+    R.once(c11.ord13, P, R, L)
 
 
 def bundle_readpath(P, R, L):
@@ -4373,6 +4387,14 @@ def bundle_recovery(P, R, L):
     R.once(grd26_reused_flag_truthful, P, R, L)
     R.once(grd28_last_wal_flag, P, R, L)
     R.once(pair17_recovery_flush_forces_manifest, P, R, L)
+    R.once(grd31_open_honours_manifest_reuse_result, P, R, L)
+    # an error met while the database is opened is an error of the open call (a listing, a log, a manifest that cannot be
+    # read must not be answered with "nothing there"): ERR-1 restricted to the recovery functions
+    from . import c08
+    R.clause("ERR-1", "error discipline of the open / recovery path (subset of C08's ERR-1)")
+    c08.err1_subset(P, R, L, ["db::DB::open", "db::DB::recover", "db::DB::get_all_db_files", "db::DB::set_current_file",
+                              "versioning::version_set::VersionSet::recover", "versioning::version_set::VersionSet::maybe_reuse_manifest",
+                              "logs::LogReader::", "<batch::Batch as std::convert::TryFrom"])
     R.once(grd24_reuse_adopts_number_with_file, P, R, L)
 
 
@@ -4405,6 +4427,7 @@ def bundle_no_assertion_trips(P, R, L):
     R.once(grd23_read_sample_threshold, P, R, L)
     R.once(grd25_finish_only_with_builder, P, R, L)
     R.once(ord20_empty_block_tested_before_finalize, P, R, L)
+    R.once(grd32_flush_time_is_a_sub_interval, P, R, L)
 
 
 # ------------------------------------------------------------------------------------------- GRD-20 a database is created only when none exists
@@ -5749,3 +5772,91 @@ def atom1_positional_read_is_one_operation(P, R, L, rule="ATOM-1"):
         seeks = [c for c in sites_reaching(P, b, lambda c: (c.declared_name or "") in ("std::io::Seek::seek", "std::io::Seek::rewind", "std::io::Seek::stream_position"))]
         R.check(rule, p + "|no-seek-then-read", not seeks, where(b),
                 "read_from does not move the shared cursor (no Seek::seek reachable)", "seek reachable through line(s) %s" % [c.line for c in seeks] if seeks else "")
+
+
+def grd31_open_honours_manifest_reuse_result(P, R, L, rule="GRD-31"):
+    """VersionSet::recover says whether the old manifest was adopted for appending; when it was not, it has already moved
+    `manifest_file_number` on to a fresh number and DB::open has to write that manifest (snapshot + CURRENT switch) before
+    the garbage collection that ends open — otherwise the old manifest is collected and CURRENT dangles. DB::recover
+    must therefore let that result decide: the bool returned by VersionSet::recover is tested (or flows into the
+    `create a new snapshot` flag DB::recover returns); it is not replaced by an option or dropped."""
+    fn = "db::DB::recover"
+    VSR = "versioning::version_set::VersionSet::recover"
+    b = P.body(fn)
+    if b is None:
+        return R.missing_anchor(rule, fn)
+    R.analysed(b)
+    calls = [c for c in b.calls() if not b.is_cleanup(c.bb) and c.name == VSR]
+    derived = lambda os_: any(o.kind == "call" and o.name == VSR for o in os_) or any(
+        o.kind == "unop" and o.extra and any(x.kind == "call" and x.name == VSR for op_ in o.extra[1]["rv"]["ops"] for x in origins(b, op_)) for o in os_)
+    tested = False
+    for bb in range(b.n):
+        t = b.term(bb)
+        if not b.is_cleanup(bb) and t["k"] == "switch" and t["discr"]["k"] in ("copy", "move") and b.local_ty(t["discr"]["pl"]["l"]) == "bool" \
+                and derived(origins(b, t["discr"])):
+            tested = True
+    flows = False
+    for bb in range(b.n):
+        if b.is_cleanup(bb):
+            continue
+        for st in b.blocks[bb]["stmts"]:
+            if st["k"] == "assign" and st["rv"]["k"] == "aggregate" and st["rv"]["ak"] == "tuple" and len(st["rv"]["ops"]) == 2 and derived(origins(b, st["rv"]["ops"][1])):
+                flows = True
+    R.check(rule, fn + "|manifest-reuse-result-decides-the-new-snapshot", bool(calls) and (tested or flows), where(b),
+            "the bool returned by VersionSet::recover is tested or flows into the flag DB::recover returns", "tested=%s flows=%s" % (tested, flows))
+
+
+def grd32_flush_time_is_a_sub_interval(P, R, L, rule="GRD-32"):
+    """compact_tables reports `elapsed - total_memtable_compaction_time` for a table compaction; Duration subtraction
+    panics on underflow, and the panic is on the compaction thread (the scheduled flag stays set: every waiter hangs).
+    The total is therefore a sum of sub-intervals of the compaction: every addend is the `elapsed()` of an Instant
+    taken inside the merge loop, never of the stopwatch of the whole compaction."""
+    n = 0
+    bad = []
+    for name, b in sorted(P.bodies.items()):
+        if not name.startswith("compaction::worker::CompactionWorker::compact_tables"):
+            continue
+        adds = [c for c in b.calls() if not b.is_cleanup(c.bb) and (c.declared_name or "") == "std::ops::AddAssign::add_assign"
+                and "Duration" in (c.name or "") and any("total_memtable_compaction_time" in o.path or (o.kind == "upvar" and o.name == "total_memtable_compaction_time")
+                                                           for o in origins(b, c.args[0]))]
+        if not adds:
+            continue
+        R.analysed(b)
+        for c in adds:
+            n += 1
+            ok = False
+            for o in origins(b, c.args[1]):
+                if o.kind == "call" and (o.name or "").endswith("Instant::elapsed") and o.site is not None:
+                    nows = [x for x in origins(b, o.site.args[0]) if x.kind == "call" and (x.name or "").endswith("Instant::now") and x.site is not None]
+                    if nows and all(in_cycle(b, x.site.bb) for x in nows) and len(nows) == len(origins(b, o.site.args[0])):
+                        ok = True
+            if not ok:
+                bad.append("line %s adds a duration that is not measured from an Instant taken inside the merge loop" % c.line)
+    R.check(rule, "compaction::worker::CompactionWorker::compact_tables|flush-time-addends-are-sub-intervals", n > 0 and not bad, "src/compaction/worker.rs",
+            "every addend of total_memtable_compaction_time is `elapsed()` of an Instant created in the same loop iteration", "; ".join(bad) or "%d addends" % n)
+
+
+def prog1_sampling_loop_progress(P, R, L, rule="PROG-1"):
+    """DatabaseIterator::sample_read_stats_for_current_key loops `while bytes_until_read_sampling < bytes_read`, taking the
+    database mutex in every round. The loop ends because each round ADDS a positive period to the counter; assigning a
+    fresh period instead (each below 2 MiB) never ends for an entry larger than that — seek / next / prev spin for ever."""
+    fn = "iterator::DatabaseIterator::sample_read_stats_for_current_key"
+    b = P.body(fn)
+    if b is None:
+        return R.missing_anchor(rule, fn)
+    R.analysed(b)
+    F = "bytes_until_read_sampling"
+    loop_tests = [c for c in comparisons(b) if in_cycle(b, c.bb) and (any(F in o.path for o in c.lhs_origins()) or any(F in o.path for o in c.rhs_origins()))]
+    stores = [s for s in field_stores(b, F) if in_cycle(b, s[0])]
+    bad = []
+    for s in stores:
+        acc = False
+        for op in s[2]["rv"].get("ops", []):
+            for o in origins(b, op):
+                if o.kind == "binop" and str(o.name).startswith("Add") and o.extra and any(
+                        F in x.path for op2 in o.extra[1]["rv"]["ops"] for x in origins(b, op2)):
+                    acc = True
+        if not acc:
+            bad.append("line %s assigns the counter without adding to its previous value" % s[2].get("line"))
+    R.check(rule, fn + "|counter-accumulates", bool(loop_tests) and bool(stores) and not bad, where(b),
+            "inside the sampling loop the counter that the loop condition reads is only ever increased (`+=`)", "; ".join(bad) or "%d loop tests, %d stores" % (len(loop_tests), len(stores)))
